@@ -106,8 +106,8 @@ TIMES = [0, 1, -1, 59, 60, 3599, 3600, 86399, 86400, -86400, -86401, 951782399, 
 def batches(rng, tier):
     thorough = tier == "thorough"
     ops = []
-    for l in lists(5 if thorough else 4):
-        for i in range(0, 7 if thorough else 6):
+    for l in lists(6 if thorough else 4):
+        for i in range(0, 8 if thorough else 6):
             ops.append(f"atopt {csv(l)} {i}")
         if len(l) <= 2 or l == [0, 1, 2, 0]:
             ops += [f"atopt {csv(l)} {i}" for i in HUGE]
@@ -155,7 +155,7 @@ def batches(rng, tier):
     yield Batch("vectors", vops, exhaustive=True,
                 note="math::vector operator/ (scalar, vector), mod (scalar, vector), ceil_div_signed on 2- and 3-dimensional int32/uint32 vectors over the boundary "
                      "values (INT_MIN, -1, 0, INT_MAX, 2^31, UINT_MAX): nothing iff some divisor is zero, every component from the translated scalar helper")
-    n = 6 if thorough else 4
+    n = 7 if thorough else 4
     ops = [f"isflag s:{w}" for w in words("-a=b", n)]
     ops += [f"enumfs s:{w}" for w in words("fobar", 4 if not thorough else 5)] + [f"enumfs s:{w}" for w in ("foo", "bar", "baz", "fo", "foobar", "foobarx", "fooba", "")]
     ops += [f"flagname {k} s:{w}" for k in ("short", "long") for w in words("-a=", 3 if not thorough else 4)]
@@ -164,7 +164,7 @@ def batches(rng, tier):
     ctxs = ["_", "opt:l", "a:s,opt:l", "x:s,:s"]
     vecs = [[]]
     frontier = [[]]
-    for _ in range(4 if thorough else 3):
+    for _ in range(5 if thorough else 3):
         frontier = [v + [t] for v in frontier for t in toks]
         vecs += frontier
     ops = [f"nextarg {','.join(v) if v else '_'} {c}" for v in vecs for c in ctxs]
@@ -220,7 +220,7 @@ def batches(rng, tier):
                      "directory, fifo, name > NAME_MAX, path > PATH_MAX, component under a file (ENOTDIR), under a loop, missing parent, '', '.', a name with blank / newline / "
                      "non-UTF-8 bytes, relative paths (plain, './', 'dir/../', 'file/../'), a 5 GB sparse file")
     # ---- pure path helpers: all pathnames over {a . /}
-    n = 7 if thorough else 5
+    n = 8 if thorough else 5
     ws = words("a./", n)
     ops = [f"path {f} s:{w}" for w in ws for f in ("rmext", "ext", "extnodot", "stem", "normalize", "nsub", "tostring")]
     small = words("a./", 4 if thorough else 3)
